@@ -112,23 +112,29 @@ CHECKS = {
              "add calls has only known binary architecture keys), C10_add_loaded_arch_ok (the images loader re-files every image, "
              "src ones of a <= 1.1 document included, through add), C10_rpms_03_arch_ok (every manifest converted from format 0.3 "
              "has no source architecture key - proved through the four nested loops of the reader), "
-             "C10_added_image_is_in_its_cell. Tie: add histories with src/nosrc/unknown arches; down-converted images 1.0/1.1 "
+             "C10_added_image_is_in_its_cell, and the positive clause: C10_src_image_refiled_under_each_binary_arch (a source image of "
+             "a <= 1.1 document lands in the cell of EACH non-src architecture its variant lists, nothing filed before is lost) "
+             "and C10_rpms_03_source_refiled (a source package of the variant's 'src' table is filed under its canonical name under "
+             "each binary architecture that lists a package built from it). Tie: add histories with src/nosrc/unknown arches; down-converted images 1.0/1.1 "
              "and rpms 0.1-0.3 documents with 'src' cells loaded by the real library and the model, with an implementation-side "
              "oracle for the re-filing clause.",
-        note="Partial: the positive re-filing clause (each source image/RPM appears under each binary arch) is checked by the "
-             "oracle on the implementation and by the load correspondence, not stated as a Coq theorem over whole documents.",
+        note="The theorems are about the reader's re-filing step and the 0.3 converter of the model; JSON text parsing is CPython's. "
+             "Format 0.3 of the rpms manifest has no written specification (the down-converter follows what the reader consumes).",
         design="DESIGN.md section 6 C10"),
     "C11": dict(
         text="Heap model of the variant object graph (objects with identity, parent pointers, child maps) mirroring "
              "VariantBase.add line by line, with the Variant validators taken from the regenerated inventory. Coq theorems: "
              "C11_add_refused_noop (a refused add leaves the WHOLE graph unchanged), C11_add_accepted_child (an accepted add has "
              "passed UID alignment and parent-arch validation with its parent set to the container and is not an ancestor), "
-             "C11_get_variants_sound (arch and type filters hold at every depth), C11_get_variants_all_level. Tie: histories of "
+             "C11_get_variants_sound (arch and type filters hold at every depth), C11_get_variants_all_level, and the invariant over ALL "
+             "histories C11_reach_edge_invariant / C11_add_preserves_edge_invariant (in every graph reachable from fresh objects by any "
+             "sequence of accepted and refused adds, re-adds and re-parenting included, each child pointing back to its parent "
+             "variant has UID = parent UID-own id and architectures within the parent's). Tie: histories of "
              "up to 12 add calls over pools of <= 7 variants; after EVERY call all parent pointers and child maps are compared, "
              "then uid/id lookups and get_variants combinations; implementation-side oracle for the forest invariants, lookup, "
              "ordering and at-most-once.",
-        note="Partial: the global forest invariant (UID uniqueness, lookup by UID from the top, get_variants ordering/NoDup) is "
-             "checked by the oracle on every sampled history, not yet proved over all histories in Coq. Objects filed in two "
+        note="Partial: UID uniqueness, lookup by UID from the top and get_variants ordering/at-most-once are checked by the oracle "
+             "on every sampled history, not proved over all histories (they do not hold for objects filed in two places). Objects filed in two "
              "places and dashed top-level UIDs with children are outside the property's quantifier (observation O11).",
         design="DESIGN.md section 6 C11"),
     "C12": dict(
